@@ -41,13 +41,13 @@ theorem loadAvps_refines (available : List (Nat × Nat)) (app : Nat) :
       Refines (loadAvps available app rows p).1 (logAvps available app rows l).1 ∧
       (loadAvps available app rows p).2 = (logAvps available app rows l).2
   | [], p, l, h => by simp [loadAvps, logAvps, h]
-  | (name, code, vendor, must, tyName) :: r, p, l, h => by
+  | (name, code, vendor, must, tyName, items) :: r, p, l, h => by
     simp only [loadAvps, logAvps]
     have hty : resolveType available tyName = (available.find? (fun q => q.1 = tyName)).map (·.2) := by
       unfold resolveType; exact alookup_find tyName available
     rw [hty]
     generalize hk : (available.find? (fun q => q.1 = tyName)).map (·.2) = known
-    let d : AvpDef := { name, code, vendor, must, tyName, ty := known.getD 0, app }
+    let d : AvpDef := { name, code, vendor, must, tyName, items, ty := known.getD 0, app }
     have hstep : Refines
         { p with avpname := ((app, name, UndefinedVendorID), d) :: ((app, name, vendor), d) :: p.avpname,
                  avpcode := ((app, code, UndefinedVendorID), d) :: ((app, code, vendor), d) :: p.avpcode }
